@@ -83,6 +83,10 @@ func init() {
 			h := int64(10 + rng.Intn(14))
 			v := int64(10 + rng.Intn(16))
 			e := ext{h, randIdx(h), pow2(h)/4 + rng.Int63n(pow2(h)/2), v, int64(rng.Intn(9) - 4)}
+			zeroAnyZoom := rng.Intn(6) == 0 // clearance 0 is answered 0:0 at EVERY zoom 0..35 (also where the grid is one tile)
+			if zeroAnyZoom {
+				e = randExt()
+			}
 			id := e.id()
 			switch rng.Intn(4) {
 			case 0:
@@ -95,6 +99,9 @@ func init() {
 			case 0:
 				neg = "1"
 			case 1, 2: // clearance exactly 0: the layer counts are 0, the ID is still checked
+				neg = "2"
+			}
+			if zeroAnyZoom {
 				neg = "2"
 			}
 			do("fit", id, neg)
@@ -141,6 +148,24 @@ func init() {
 		alt := (rng.Float64() - 0.5) * 4 * wAlt
 		lon2, lat2, alt2 := lon+span()*wLon, lat+span()*wLon*0.7, alt+span()*wAlt
 		radius := []float64{0, 0, 0.3, 0.8, 1.4}[rng.Intn(5)] * math.Min(wMetres, wAlt*4)
+		if rng.Intn(6) == 0 {
+			// radius 0 returns exactly the line's IDs at EVERY zoom pair 0..35 x 0..35 (positive radii stay at moderate zooms:
+			// fitting them on a grid of a few tiles is outside what the function documents)
+			h, v = int64(rng.Intn(36)), int64(rng.Intn(36))
+			if rng.Intn(3) == 0 {
+				h = int64(rng.Intn(3)) // grids of 1, 2 and 4 columns
+			}
+			wLon = 360 / math.Pow(2, float64(h))
+			wAlt = math.Pow(2, float64(25-v))
+			alt = (rng.Float64() - 0.5) * 4 * wAlt
+			if h < 3 {
+				lon, lat = rng.Float64()*300-150, rng.Float64()*140-70
+				lon2, lat2, alt2 = rng.Float64()*300-150, rng.Float64()*140-70, alt+span()*wAlt
+			} else {
+				lon2, lat2, alt2 = lon+span()*wLon, lat+span()*wLon*0.7, alt+span()*wAlt
+			}
+			radius = 0
+		}
 		skips := "0"
 		if rng.Intn(3) == 0 {
 			skips = "1"
